@@ -177,13 +177,14 @@ StartInterference ==                   \* amp.partial_weight_interference(data)
     /\ Tick /\ Interleavable
     /\ Push(CompFrame("partial_weight_interference", m.sel, Pairs))
     /\ UNCHANGED <<m, base>> /\ KeepCache
-\* fit_fractions(amp, mc, res=rs, method="old") = cal_fitfractions: amp.set_used_res(res), then the
-\* total integral; method="new" = FitFractions.integral: the total integral is taken with the
-\* selection that is current
+\* fit_fractions(amp, mc, res=rs, method="old") = cal_fitfractions and method="new" =
+\* FitFractions.integral / append_int: amp.set_used_res(res), then the total integral (until
+\* repo commit 936ac3f the "new" route took the total with the selection that was current;
+\* isNew only labels the route now)
 StartFitFractions(rs, isNew) ==
     /\ Tick /\ Interleavable
     /\ Push(CompFrame("fit_fractions", m.sel, FFTodo(rs)))
-    /\ m' = IF isNew THEN m ELSE SetUsedResNames(m, Active(rs))
+    /\ m' = SetUsedResNames(m, Active(rs))
     /\ UNCHANGED base /\ KeepCache
 \* tf_pwa.config_loader.plotter.PlotAllData(amp, data, phsp, res=[...]): partial weights of
 \* resonance sets for plots: set_used_res(rs_i); amp(phsp) for each entry, then restore
